@@ -17,9 +17,12 @@ RULE = ("programs fit(y[, fh]) ; update(batch)* ; predict([fh]) over every forec
         "StackingForecaster, ForecastingGridSearchCV) and one level of composition; RangeIndex or "
         "integer Index with a random start, out-of-sample horizons (contiguous and gapped, up to 9 "
         "steps) given relative or absolute, fh passed to fit, to predict or to both, 0-2 update "
-        "batches (empty batches included) with update_params False/True; every program is run a "
-        "second time on the series shifted by a random k for the shift relation. non-trivial = a "
-        "forecast was returned; distinct = distinct canonical JSON case")
+        "batches (empty batches included) with update_params False/True (True also when no horizon "
+        "has been seen before the update); every program is run a second time on the series shifted "
+        "by a random k for the shift relation; a few NaiveForecaster configurations that fit "
+        "documents to reject (drift on one observation, seasonal mean on less than one season) are "
+        "included and must be rejected at fit. non-trivial = a forecast was returned (or a "
+        "documented rejection); distinct = distinct canonical JSON case")
 TRUSTED = [
     "props/c03.py: program generator, construction of the forecasters from the case description, "
     "test-double regressor (0-d predictions) for the direct/recursive/dirrec reductions, "
@@ -150,10 +153,8 @@ def _case(rng, fc=None):
     ups = rng.choice([[], [], [], [1], [2], [3], [0], [2, 1], [1, 0], [0, 3], [4, 2]])
     req = _needs_fh_at_fit(fc)
     fh_at = rng.choice(["fit", "both"]) if req else rng.choice(["fit", "predict", "predict", "both"])
-    upd_params = bool(ups) and fh_at != "predict" and rng.random() < 0.45
-    if fc["t"] == "ttf" and 0 in ups and rng.random() < 0.8:
-        ups = [m for m in ups if m > 0]      # empty batches hit F-C03-3 there; keep a few
-        upd_params = upd_params and bool(ups)
+    # refit on update also when no horizon has been seen yet (fh only passed to predict)
+    upd_params = bool(ups) and rng.random() < 0.45
     if fc["t"] == "stack":
         fh = list(range(1, rng.randint(2, 4)))     # stacking trains on a hold-out window of len(fh)
     return {"kind": "run", "fc": fc, "n": n, "t0": rng.choice([0, 0, 1, 3, 7, 25, 100, -6]),
@@ -174,16 +175,35 @@ def gen_cases(rng, tier):
     for what in ["ensemble", "ttf", "multiplex", "stack", "grid"]:
         for _ in range(8 if quick else 120):
             cases.append(_case(rng, _fc(rng, what)))
-    # the two known open findings, hit on purpose but rarely
+    # configurations fit documents to reject (no textbook forecast exists; formerly NaN forecasts)
     c = _case(rng, {"t": "naive", "strategy": "drift", "sp": 1, "wl": None})
     c.update(n=1, updates=[], update_params=False)
     cases.append(c)
-    c = _case(rng, {"t": "naive", "strategy": "mean", "sp": 1, "wl": 3})
-    c.update(n=8, updates=[2], update_params=True, fh_at="predict")
+    c = _case(rng, {"t": "naive", "strategy": "mean", "sp": 4, "wl": None})
+    c.update(n=rng.choice([1, 2, 3]), updates=[], update_params=False, fh=[1, 2, 3, 4])
+    cases.append(c)
+    # ... and their accepted neighbours
+    c = _case(rng, {"t": "naive", "strategy": "drift", "sp": 1, "wl": None})
+    c.update(n=2, updates=[], update_params=False)
     cases.append(c)
     c = _case(rng, {"t": "naive", "strategy": "mean", "sp": 4, "wl": None})
-    c.update(n=2, updates=[], update_params=False, fh=[1, 2, 3, 4])
+    c.update(n=4, updates=[], update_params=False, fh=[1, 2, 3, 4, 5])
     cases.append(c)
+    # refit on update before any horizon has been seen, every forecaster that takes fh in predict
+    for fc in ({"t": "naive", "strategy": "mean", "sp": 1, "wl": 3},
+               {"t": "naive", "strategy": "drift", "sp": 1, "wl": None},
+               {"t": "poly", "degree": 1, "intercept": True},
+               {"t": "es", "variant": "ses"}, {"t": "theta", "sp": 4}, {"t": "ets", "variant": "ann"},
+               {"t": "reduce", "strategy": "recursive", "wl": 3, "reg": "double"}):
+        c = _case(rng, dict(fc))
+        c.update(updates=rng.choice([[2], [1, 2], [3, 0]]), update_params=True, fh_at="predict")
+        cases.append(c)
+    for what in ["ensemble", "ttf", "multiplex", "grid"]:
+        for _ in range(2 if quick else 20):
+            c = _case(rng, _fc(rng, what))
+            if not _needs_fh_at_fit(c["fc"]):
+                c.update(updates=rng.choice([[2], [1, 2]]), update_params=True, fh_at="predict")
+            cases.append(c)
     if not quick:
         cases += exhaustive_cases()
     return cases
@@ -413,22 +433,33 @@ def expected_index(case, shift=0):
     return [final_cutoff + r for r in case["fh"]]
 
 
-def _is_leaf_naive_drift_len1(case):
-    fc = case["fc"]
-    return (fc["t"] == "naive" and fc["strategy"] == "drift" and fc["wl"] is None
-            and case["n"] + sum(case["updates"]) == 1)
+def documented_rejection(case):
+    """NaiveForecaster leaf configurations that fit documents to reject (C11: window length
+    resolution) - restated here independently of the Coq model: a window (given, or by default the
+    whole training series) shorter than one season for the seasonal mean, of a single point for
+    drift, or longer than the training series.  None for everything else."""
+    fc, n = case["fc"], case["n"]
+    if fc["t"] != "naive":
+        return None
+    s, sp, wl = fc["strategy"], fc["sp"], fc["wl"]
+    if s == "last":
+        w = sp
+    else:
+        w = n if wl is None else wl
+        if s == "mean" and sp > 1 and w < sp:
+            return "seasonal mean over a window of %d < sp = %d" % (w, sp)
+        if s == "drift" and w == 1:
+            return "drift through a single point"
+    if w > n:
+        return "window of %d on a training series of %d" % (w, n)
+    return None
 
 
 def _check_run(case, out, shift, tag):
+    why = documented_rejection(case)
     if "err" in out:
-        if (out["stage"].startswith("update") and case["update_params"]
-                and case["fh_at"] == "predict" and out["err"] == "ValueError"
-                and "No `fh` has been set" in out["msg"]):
-            return "update-before-fh-raises: %s" % out["msg"][:80]
-        if (out["stage"].startswith("update") and case["fc"]["t"] == "ttf"
-                and case["updates"][int(out["stage"][6:])] == 0 and out["err"] == "ValueError"
-                and "must contain at least some values" in out["msg"]):
-            return "ttf-empty-update-raises: %s" % out["msg"][:80]
+        if why and out["stage"] == "fit" and out["err"] == "ValueError":
+            return None                 # documented rejection at fit
         return "raised%s: %s at %s: %s" % (tag, out["err"], out["stage"], out["msg"][:120])
     want_c = expected_cutoffs(case, shift)
     if out["cutoffs"][0] != want_c[0]:
@@ -448,14 +479,16 @@ def _check_run(case, out, shift, tag):
     if any(b <= a for a, b in zip(out["index"], out["index"][1:])):
         return "increasing-time-order%s: %s" % (tag, out["index"])
     if any(v is None or isinstance(v, str) for v in out["vals"]):
-        fc, total = case["fc"], case["n"] + sum(case["updates"])
-        why = ""
+        fc = case["fc"]
+        sub = ""
         if fc["t"] == "naive" and fc["wl"] is None and not case["update_params"]:
             if fc["strategy"] == "drift" and case["n"] == 1:
-                why = "-drift-single-observation"
+                sub = "-drift-single-observation"
             elif fc["strategy"] == "mean" and fc["sp"] > case["n"]:
-                why = "-seasonal-mean-series-shorter-than-season"
-        return "finite-for-finite-data%s%s: %s" % (why, tag, out["vals"])
+                sub = "-seasonal-mean-series-shorter-than-season"
+        return "finite-for-finite-data%s%s: %s" % (sub, tag, out["vals"])
+    if why:
+        return "accepted-configuration-documented-as-rejected%s: %s" % (tag, why)
     return None
 
 
@@ -467,6 +500,10 @@ def oracle(case, out):
     if f:
         return f
     a, b = out["a"], out["b"]
+    if "err" in a or "err" in b:          # documented rejection: both runs must be rejected
+        if ("err" in a) != ("err" in b):
+            return "shift-changes-acceptance: %s vs %s" % (a.get("err"), b.get("err"))
+        return None
     if b["index"] != [i + case["k"] for i in a["index"]]:
         return "shift-labels: %s vs %s (k=%d)" % (a["index"], b["index"], case["k"])
     for r, x, y in zip(case["fh"], a["vals"], b["vals"]):
@@ -489,7 +526,7 @@ def oracle(case, out):
 
 
 def nontrivial(case, out):
-    return "err" not in out["a"]
+    return "err" not in out["a"] or documented_rejection(case) is not None
 
 
 def shrink(case):
